@@ -42,6 +42,9 @@ pub struct Plan {
     /// monotonic and wall clocks advance by exactly these amounts
     #[serde(default)]
     pub rdelays_ms: Vec<i64>,
+    /// the background scan of the process table takes this long (real sleep at its first read)
+    #[serde(default)]
+    pub scan_delay_ms: i64,
 }
 fn minus_one() -> i64 {
     -1
@@ -55,7 +58,7 @@ fn yes() -> bool {
 
 impl Plan {
     pub fn basic(seed: u64) -> Plan {
-        Plan { seed, clock: 1_700_000_000, rchunks: vec![], wplan: vec![], wfail_at: -1, wfail_errno: 32, wfail_sticky: true, sigint: String::new(), heap: false, rdelays_ms: vec![] }
+        Plan { seed, clock: 1_700_000_000, rchunks: vec![], wplan: vec![], wfail_at: -1, wfail_errno: 32, wfail_sticky: true, sigint: String::new(), heap: false, rdelays_ms: vec![], scan_delay_ms: 0 }
     }
 }
 
@@ -96,6 +99,11 @@ pub struct RunSpec {
     pub child: Option<ChildSetup>,
     /// stdout is a pipe whose reader closes after this many bytes (real EPIPE)
     pub stdout_quit_after: Option<usize>,
+    /// delta is started as the child of a process whose command line is this (a copy of /bin/sh
+    /// under that name, e.g. ["git", "show", "HEAD:src/x.rs"]): what `git show ... | delta` looks
+    /// like to delta's scan of the process table
+    #[serde(default)]
+    pub parent_cmdline: Option<Vec<String>>,
 }
 
 #[derive(Clone, Debug, Default)]
@@ -299,6 +307,9 @@ pub fn run(env: &Env, spec: &RunSpec, dir: &Path, keep: bool) -> std::io::Result
     if !p.rdelays_ms.is_empty() {
         plan.push_str(&format!("rdelays_ms {}\n", list_str(&p.rdelays_ms)));
     }
+    if p.scan_delay_ms > 0 {
+        plan.push_str(&format!("scan_delay_ms {}\n", p.scan_delay_ms));
+    }
     fs::write(d("plan"), plan)?;
 
     // stubs
@@ -329,8 +340,32 @@ pub fn run(env: &Env, spec: &RunSpec, dir: &Path, keep: bool) -> std::io::Result
             fs::write(d("home/.gitconfig"), subst(gc))?;
         }
     }
-    let mut cmd = Command::new(&env.delta_bin);
-    cmd.args(spec.args.iter().map(|a| subst(a)));
+    let mut cmd = match &spec.parent_cmdline {
+        None => {
+            let mut c = Command::new(&env.delta_bin);
+            c.args(spec.args.iter().map(|a| subst(a)));
+            c
+        }
+        Some(pc) => {
+            // <run>/parent/<name> is a copy of /bin/sh; it sources a script that runs delta (not exec:
+            // the shell must stay delta's parent) and ends with delta's status
+            fs::create_dir_all(d("parent"))?;
+            let prog = d("parent").join(&pc[0]);
+            fs::copy("/bin/sh", &prog)?;
+            let quote = |a: &str| format!("'{}'", a.replace('\'', "'\\''"));
+            let mut script = format!("{}", quote(&env.delta_bin.display().to_string()));
+            for a in &spec.args {
+                script.push(' ');
+                script.push_str(&quote(&subst(a)));
+            }
+            script.push_str("\nexit $?\n");
+            fs::write(d("cmd.sh"), script)?;
+            let mut c = Command::new(&prog);
+            c.arg("-c").arg(format!(". {}", d("cmd.sh").display()));
+            c.args(&pc[1..]);
+            c
+        }
+    };
     cmd.env_clear();
     cmd.env("PATH", format!("{}:/usr/bin:/bin", d("bin").display()));
     cmd.env("HOME", d("home"));
